@@ -21,6 +21,8 @@ pub mod constants;
 pub mod plan;
 pub mod repr;
 pub mod serialize;
+#[cfg(rsdd_verif)]
+pub mod verif;
 
 #[cfg(target_arch = "wasm32")]
 pub mod wasm;
